@@ -116,7 +116,7 @@ theorem deviation_aborts_before_data (c : Cfg) (s : St) (ep n : Nat) (m : Msg)
     (∃ s' b, step c s ep n m = .next s' b) ∨ step c s ep n m = .ignore ∨
     (∃ a, step c s ep n m = .abort a) ∨ (∃ a, step c s ep n m = .acceptAbort a) ∨
     ((step c s ep n m = .peerClosed ∨ step c s ep n m = .acceptClosed) ∧ m.kind.isAlert = true) := by
-  rcases step_cases c s ep n m with h | ⟨a, h⟩
+  rcases step_cases c s ep n m with h | ⟨a, h⟩ | ⟨a, h, _⟩
   · rw [h]
     have hk : stepK0 c s m.kind = (stepHs c s m.kind).toOut := by
       cases s <;> first | rfl | exact absurd rfl hs | exact absurd rfl hd
@@ -133,12 +133,13 @@ theorem deviation_aborts_before_data (c : Cfg) (s : St) (ep n : Nat) (m : Msg)
         repeat' split
         all_goals simp [HsOut.toOut]
   · exact Or.inr (Or.inr (Or.inl ⟨a, h⟩))
+  · exact Or.inr (Or.inr (Or.inr (Or.inl ⟨a, h⟩)))
 
 /-- application data is never enabled before completion: always a fatal alert -/
 theorem app_data_never_enabled_before_completion (c : Cfg) (s : St) (ep n : Nat) (m : Msg)
     (hk : m.kind = .app_data) (hs : s ≠ .done) (hd : s ≠ .dead) :
     ∃ a, step c s ep n m = .abort a := by
-  rcases step_cases c s ep n m with h | ⟨a, h⟩
+  rcases step_cases c s ep n m with h | ⟨a, h⟩ | ⟨a, _, hf⟩
   · refine ⟨.unexpected_message, ?_⟩
     rw [h]
     have hk0 : stepK0 c s m.kind = (stepHs c s m.kind).toOut := by
@@ -146,6 +147,7 @@ theorem app_data_never_enabled_before_completion (c : Cfg) (s : St) (ep n : Nat)
     rw [hk0, hk]
     simp [stepHs, MsgKind.isAlert, HsOut.toOut]
   · exact ⟨a, h⟩
+  · rw [hk] at hf; simp [firstHello] at hf
 
 /-- run level: whatever is sent to an endpoint, as long as it has not completed the handshake it
     has delivered no application data; a fatal alert of ours always means the connection is dead
@@ -211,10 +213,10 @@ theorem renegotiation_attempt_answer (c : Cfg) (ep n : Nat) (m : Msg)
   simp only [stepK0, v13Active]
   by_cases h13 : c.isTls13 = true
   · rcases hk with ⟨hr, hkk⟩ | ⟨hr, hkk⟩ <;> rw [hkk] <;>
-      simp [stepDone, MsgKind.isAlert, h13, hr, mustAlign, Out.accepted]
+      simp [stepDone, MsgKind.isAlert, h13, hr, mustAlign, Out.accepted, firstHello]
   · have h13' : c.isTls13 = false := by simpa using h13
     rcases hk with ⟨hr, hkk⟩ | ⟨hr, hkk⟩ <;> rw [hkk] <;>
-      simp [stepDone, MsgKind.isAlert, h13', hr, mustAlign, Out.accepted]
+      simp [stepDone, MsgKind.isAlert, h13', hr, mustAlign, Out.accepted, firstHello]
 
 /-- `_handshakeStart` on an open connection raises -/
 theorem handshakeStart_open_raises (c : Cfg) (ms : List Msg) (h : (run c (start c) ms).st = .done) :
